@@ -189,7 +189,7 @@ func firstLines(s string, n int) []string {
 
 func main() {
 	if !raceEnabled && os.Getenv("VERIF_NO_RLIMIT") == "" {
-		lim := uint64(8 << 30)
+		lim := uint64(3 << 30) // generous for the runtime + parser tables (< 1 GiB), small enough that an allocation bomb fails at once
 		_ = syscall.Setrlimit(syscall.RLIMIT_AS, &syscall.Rlimit{Cur: lim, Max: lim})
 	}
 	in := bufio.NewReaderSize(os.Stdin, 1<<20)
